@@ -79,6 +79,16 @@ def run(rec, cfg):
             for k in ("paren", "neg", "sgn", "pow"):
                 one(WT.nested(rng, d, k))
                 one(WT.nested(rng, d, k)[: -max(1, d // 2)])
+    if cfg.shard == 1 % cfg.nshards:
+        # literals around the magnitudes where number conversions change behaviour: 2^53, 2^63, 2^64,
+        # the largest double (309 digits), far beyond it -- alone, signed, as coefficient, exponent
+        # base, function argument, with a fraction part, with leading zeros
+        for nd in (15, 16, 17, 19, 20, 21, 39, 60, 100, 200, 307, 308, 309, 310, 320, 400, 700, 1000, 1400):
+            for lead in ("9", "1", "17", "0009"):
+                lit = (lead + "".join(rng.choice("0123456789") for _ in range(nd)))[:nd]
+                for form in ("{n}", "-{n}", "{n}x", "2x + {n}", "{n} = x", "({n})^2", "sgn({n})", "abs(-{n})", "{n}.5", "0.{n}", "{n}.", "x / {n}", "{n}y^2 - {n}"):
+                    one(form.format(n=lit))
+                    rec.arm("texts:literal-magnitudes")
     n = cfg.scale(12000, 150000)
     for i in range(n):
         if cfg.out_of_time():
